@@ -23,6 +23,7 @@ ASSUMPTIONS = ["pathfinding::kuhn_munkres returns a maximum-weight perfect match
 
 
 def run(ctx):
+    _wiring(ctx)
     ctx.rule('R02.1', 'gate polarity: IoU*conf >= threshold; conf floor; Mahalanobis gate index/strictness; own column')
     n = M.rule_positional(ctx, 'R02.1')
     n += C07.gate_rule(ctx, 'R02.1')
@@ -37,5 +38,17 @@ def run(ctx):
     ctx.floor('R02.4', n, 13)
     ctx.rule('R02.6', 'kept comparison box = filter estimate; single newest estimate; make_prediction stores the state')
     ctx.floor('R02.6', M.rule_estimate_kept(ctx, 'R02.6'), 6)
+    ctx.rule('R02.10', 'the assignment sees every gated pair: complete distance stream (exactly-once responses, consumers)')
+    n = S.rule_exactly_once_responses(ctx, 'R02.10')
+    n += S.rule_fanout(ctx, 'R02.10')
+    n += S.rule_consumers(ctx, 'R02.10')
+    ctx.floor('R02.10', n, 25)
     ctx.rule('R02.8', 'new-track weight = configured threshold in all four trackers')
     ctx.floor('R02.8', M.rule_voting_threshold(ctx, 'R02.8'), 6)
+
+
+def _wiring(ctx):
+    """name-agreement wiring of the configuration values this property depends on (rules/wiring.py)"""
+    import wiring
+    ctx.rule('R02.9', 'configuration plumbing: same-named fields / parameters / setters / call arguments are not crossed')
+    ctx.floor('R02.9', wiring.run(ctx, 'R02.9', {'method', 'min_confidence', 'positional_kind', 'positional_min_confidence', 'positional_threshold', 'position_weight', 'velocity_weight', 'max_idle_epochs', 'history_length'}), 19)
